@@ -133,6 +133,14 @@ def check_property(pid, tier, seed, jobs=None):
         c = contract_mod.REGISTRY[key]
         if err is not None:
             raise RuntimeError(f"verifier crashed on {c.name}:\n{err}")
+        # a clause must be reached in at least one variant (zero-obligation guard); a variant whose every path raises
+        # an allowed exception legitimately reaches no postcondition
+        reached = set()
+        for r in results:
+            reached.update(r["obligations"].keys())
+        for r in results:
+            if not r["out_of_reach"] and not r["error"]:
+                r["missing_obligations"] = [m for m in r["missing_obligations"] if m not in reached]
         for r in results:
             vtag = f"[{r['variant']}]" if r.get("variant") else ""
             fname = f"{c.func}{vtag}"
@@ -156,7 +164,7 @@ def check_property(pid, tier, seed, jobs=None):
             for label, a in labels.items():
                 oid = f"{pid}/{fname}/{label}"
                 st = a["status"]
-                if st == "discharged" and (r["out_of_reach"] or r["error"]):
+                if st == "discharged" and (r["out_of_reach"] or r["error"]) and not label.startswith("frame:syntactic"):
                     st = "unknown"  # some path was not explored: nothing is claimed for this function
                     a = dict(a, failing={"reason": "function partly out of reach: " + "; ".join(r["out_of_reach"])[:200]})
                 backend = "+".join(sorted(a["backends"]))
